@@ -930,6 +930,22 @@ int main(int argc, char **argv) {
     int nviol = 0, nknown = 0, harness = 0;
     std::vector<std::string> vlines, klines, vjson;
     mkdir(replay_dir.c_str(), 0755); mkdir((replay_dir + "/" + prop).c_str(), 0755);
+    // one representative per (class, known-or-not): details may carry run-specific numbers
+    {
+        std::map<std::string, std::pair<uint64_t, std::string>> grouped;
+        for (auto &kv : found) {
+            auto tab = kv.first.find('\t');
+            std::string cls = kv.first.substr(0, tab), det = kv.first.substr(tab + 1);
+            bool is_known = false;
+            for (auto &k : known) if (k.prop == prop && k.cls == cls && (k.key.empty() || det.find(k.key) != std::string::npos)) is_known = true;
+            std::string gkey = is_known ? kv.first : cls; // known findings are matched by their exact detail, unknown ones grouped by class
+            if (!grouped.count(gkey) || kv.second.first < grouped[gkey].first) grouped[gkey] = {kv.second.first, kv.first};
+        }
+        std::map<std::string, std::pair<uint64_t, std::string>> regrouped;
+        for (auto &g : grouped) regrouped[g.second.second] = {g.second.first, ""};
+        found.swap(regrouped);
+    }
+    double post_deadline = wall_s() + (thorough ? 300 : 60);
     for (auto &kv : found) {
         auto tab = kv.first.find('\t');
         std::string cls = kv.first.substr(0, tab), det = kv.first.substr(tab + 1);
@@ -938,10 +954,11 @@ int main(int argc, char **argv) {
         if (kn) { nknown++; klines.push_back("KNOWN-FINDING: property=" + prop + " " + cls + " :: " + det); continue; }
         // minimise: drop events while the same class and detail persist
         W2Plan p = gen_w2(prop, vseed, kv.second.first);
-        auto still = [&](const W2Plan &c) { auto v = evaluate(c, nullptr, nullptr); for (auto &x : v) if (x.cls == cls && x.detail == det) return true; return false; };
+        bool exact = cls == "C17:data-race"; // races are identified by object and functions; other details may vary with the plan
+        auto still = [&](const W2Plan &c) { auto v = evaluate(c, nullptr, nullptr); for (auto &x : v) if (x.cls == cls && (!exact || x.detail == det)) return true; return false; };
         if (!still(p)) { printf("HARNESS: %s (%s) at index %llu does not reproduce in isolation\n", cls.c_str(), det.c_str(), (unsigned long long)kv.second.first); harness++; continue; }
         size_t before = p.evs.size();
-        for (size_t i = 0; i < p.evs.size();) { W2Plan c = p; c.evs.erase(c.evs.begin() + i); if (!c.evs.empty() && still(c)) p = c; else i++; }
+        for (size_t i = 0; i < p.evs.size() && wall_s() < post_deadline;) { W2Plan c = p; c.evs.erase(c.evs.begin() + i); if (!c.evs.empty() && still(c)) p = c; else i++; }
         { W2Plan c = p; c.p_mem = 0; c.p_call = 0; c.pct_thread = -1; if (still(c)) p = c; }
         if (!still(p)) { harness++; continue; }
         p.expect_class = cls;
